@@ -103,6 +103,9 @@ const (
 )
 
 func (k OpKind) String() string {
+	if k == 0 {
+		return "read"
+	}
 	return [...]string{"?", "create", "mkdir", "write", "truncate", "rename", "remove", "removeall", "fsync", "syncall", "mark"}[k]
 }
 
